@@ -15,6 +15,7 @@ func genVacancyPlan(t *rapid.T) *Plan {
 	h := rapid.SampledFrom([]time.Duration{100 * time.Millisecond, 200 * time.Millisecond, 300 * time.Millisecond, 700 * time.Millisecond, time.Second}).Draw(t, "H")
 	ttl := time.Duration(rapid.SampledFrom([]int{3, 3, 5}).Draw(t, "ratio")) * h
 	p := &Plan{Profile: "vacancy", H: h, TTL: ttl, SnapEvery: odd(h/2 + 3*time.Microsecond)}
+	p.ExpirySlack = rapid.SampledFrom([]time.Duration{0, 0, 250 * time.Millisecond}).Draw(t, "expiry_slack")
 	nc := rapid.IntRange(1, 3).Draw(t, "candidates")
 	latMax := min(h/5, 60*time.Millisecond)
 	p.Instances = append(p.Instances, Inst{ID: "L", Group: "g", Lat: genLatList(t, latMax, "latL")})
